@@ -45,6 +45,14 @@ CLO = "let xs = [1, 2, 3]\nlet f = () -> {\n    xs.push(99)\n    xs.len()\n}\n"
 _c = both("closure_array", CLO, ind("let k = f()"), "println(xs.len())\n", "let k = f()\n", ind("println(f())"), None)
 PROGS += [(_c[0][0], _c[0][1], "3\n"), (_c[1][0], _c[1][1], "4\n")]
 
+# ---- arrays that are EMPTY when the task is spawned (top level and nested in a struct)
+PROGS += both("empty_array", "let e: array<int> = []\n",
+              ind("e.push(1)\ne.push(2)"), "println(e.len())\n",
+              "e.push(1)\ne.push(2)\n", ind("println(e.len())"), "0\n")
+PROGS += both("struct_empty_array_field", "type Bag = {\n    items: array<int>\n    n: int\n}\nlet b = Bag([], 5)\n",
+              ind("b.items.push(99)"), "println(b.items.len())\nprintln(b.n)\n",
+              "b.items.push(99)\n", ind("println(b.items.len())\nprintln(b.n)"), "0\n5\n")
+
 # ---- records mixing scalar and heap fields in one struct (Job{id, items, label})
 JOB = "type Job = {\n    id: int\n    items: array<int>\n    label: string\n}\nlet j = Job(7, [1, 2, 3], \"a\" .. \"b\")\n"
 JOB_MUT = "j.items.push(99)\nj.items[0] = 77\nj.id = 8\n"
